@@ -20,6 +20,15 @@ CHECKS = {
     'C03': ('symbolic execution of the real rate() over a symbolic rank/score vector (values z3 Real, kinds z3 Int tags), z3-decided path partition; per path comparison with the real code on canonical dense ranks',
             'Every path of rate() over ALL finite int/float/bool rank or score vectors of length 2-4 (5 single-kind in thorough): the result equals the result for the canonical dense int ranks of the path\'s weak order; scores == negated ranks; omitted == [0..n-1].',
             'Trusted: z3 (LRA/LIA), exactness of CPython comparisons between finite int/float/bool. NaN/inf ranks outside. Game values concrete.', '6/C03'),
+    'C09': ('symbolic execution of the real predict_win (single and two-run) + z3 (QF_NRA with Phi axioms) per clause and path; sat models replayed on float code',
+            'For every model and listed shape and all mu, sigma >= 0, beta > 0: one value per team in [0,1] summing to 1; every team permutation (all n!) and player reversal permutes the result; identical teams get identical values (two: exactly 1/2); raising any member\'s mu by any d > 0 never lowers own and never raises another team\'s value.',
+            TRUST, '6/C09'),
+    'C10': ('symbolic execution of the real predict_draw (single and two-run) + z3 (QF_NRA, Phi axioms, A4 symmetric-spread instances, certified Phi enclosure) per clause and path; sat models replayed on float code',
+            'For every model and listed shape and all mu, sigma >= 0 (sigma -> 0 inside), beta > 0: result in [0, 1] (two-team bound proved as <= 1+1e-8 for N = 2..5, thorough: 8, 9, 16), order independence (team permutations, player reversal), gap monotonicity for two teams, equalising totals never lowers it.',
+            TRUST + ' A4 is a trusted analytic fact about Phi (numerically validated at set-up).', '6/C10'),
+    'C11': ('symbolic execution of the real predict_rank with Phi over-approximated by free values (rank clauses, z3 linear arithmetic per path) and with Phi axioms in one path with predict_draw (sum clause, QF_NRA)',
+            'For every model: on every order/tie pattern of the probabilities of 2-4 teams (5 in thorough) the returned ranks are ints in 1..n consistent with the probabilities, positions are the teams\' own; and probabilities + predict_draw = 1 for the listed shapes with n >= 3.',
+            TRUST, '6/C11'),
     'C12': ('symbolic execution of the real predict_* and of the documented closed forms in one path (sx engine) + z3 equality per value; sat models replayed against mpmath',
             'For every model and the listed shapes (up to 8 teams / 8 players in thorough) and all mu, sigma >= 0, beta > 0: every value returned by predict_win, predict_draw and predict_rank is the same real-valued term as the documented closed form.',
             TRUST + ' predict_rank: the rank assignment is stubbed here (decided in C11).', '6/C12'),
